@@ -4,6 +4,7 @@ CONSTANT MkCase <- HBuilderCase
 CONSTANT MaxContent = 17
 CONSTANT MaxSeq = 3
 CONSTANT MaxTotal = 8
+CONSTANT BigPalettes = {}
 INVARIANT DesignAccepted
 INVARIANT DesignControlled
 INVARIANT Export
